@@ -23,7 +23,9 @@ Live(m, l) == l \in DOMAIN m.st /\ ~m.st[l].hostClosed
 CallNo(m, t) == IF t \in DOMAIN m.callno THEN m.callno[t] ELSE 0
 
 NewStream(t, cn) == [ph |-> "opening", rid |-> Zero, devUn |-> 0, hostUn |-> FALSE, devClosed |-> FALSE, hostClosed |-> FALSE,
-                     owner |-> t, call |-> cn, nsent |-> 0, wrote |-> <<>>]
+                     owner |-> t, call |-> cn, nsent |-> 0, wrote |-> <<>>,
+                     foreign |-> FALSE,    \* a non-CLSE packet of this stream was read off the wire by a thread that does not own it
+                     k1 |-> FALSE]         \* history signature of finding K1: the stream's CLSE was read by another thread while nothing of the stream had been parked
 
 (* ---- a host packet on the wire: e = [t, cmd, a0, a1, len, nul] ------------------------------------ *)
 MonStreamTx(m, e) ==
@@ -47,17 +49,22 @@ MonStreamTx(m, e) ==
                   [] e.cmd = "CLSE" -> [m EXCEPT !.st[l].hostClosed = TRUE])
     [] OTHER -> m                   \* CNXN / AUTH: the handshake monitor (AdbAuth) judges those
 
-(* ---- a device packet consumed off the wire by some host thread: e = [cmd, a0, a1] ----------------- *)
-MonRd(m, e) ==
-  LET l == e.a1 IN
-  IF e.cmd = "CNXN" THEN [m EXCEPT !.maxdata = e.a1]
-  ELSE IF l \notin DOMAIN m.st THEN m
-  ELSE LET s == m.st[l] IN
+(* ---- a device packet consumed off the wire by host thread e.t: e = [t, cmd, a0, a1] ---------------- *)
+MonRdStream(m, e) ==
+  LET l == e.a1 s == m.st[l] IN
     CASE e.cmd = "OKAY" -> IF s.ph = "opening" THEN [m EXCEPT !.st[l].ph = "open", !.st[l].rid = e.a0]
                            ELSE [m EXCEPT !.st[l].hostUn = FALSE]
       [] e.cmd = "WRTE" -> [m EXCEPT !.st[l].devUn = @ + 1]
       [] e.cmd = "CLSE" -> [m EXCEPT !.st[l].devClosed = TRUE]
       [] OTHER -> m
+MonRd(m, e) ==
+  LET l == e.a1 IN
+  IF e.cmd = "CNXN" THEN [m EXCEPT !.maxdata = e.a1]
+  ELSE IF l \notin DOMAIN m.st THEN m
+  ELSE LET m1 == MonRdStream(m, e) s == m.st[l] IN
+       IF e.t = s.owner THEN m1
+       ELSE IF e.cmd = "CLSE" THEN [m1 EXCEPT !.st[l].k1 = ~s.foreign]
+       ELSE [m1 EXCEPT !.st[l].foreign = TRUE]
 
 (* ---- the device puts a packet on the wire: e = [cmd, a0, a1, syms] -------------------------------- *)
 MonDv(m, e) ==
@@ -95,6 +102,9 @@ MonRet(m, e) ==
        THEN IF Cardinality(mine) # 1 THEN Bad(m, "C04.OneStreamPerCommand")
             ELSE LET c == ContentClause(m, e, CHOOSE l \in mine : TRUE) IN IF c = "ok" THEN m ELSE Bad(m, c)
   ELSE m
+
+\* C06: an operation that can never complete although the device owes it nothing more (reported by the scheduler, never waited for)
+MonStuck(m, e) == IF \E l \in Mine(m, e.t) : m.st[l].k1 THEN Bad(m, "C06.Stuck.K1") ELSE Bad(m, "C06.Stuck")
 
 MonExc(m, e) == IF e.cls = "UnicodeDecodeError" THEN Bad(m, "C01.NoDecodeError") ELSE m
 =============================================================================
